@@ -22,6 +22,7 @@ func init() {
 		rules.SelectorRenderingLossless(p, r, "C09-sel")
 		rules.SelectorTextSingleAssignment(p, r, "C09-sel-var")
 		rules.RenderersRangeOverOwnMap(p, r, "C09-str")
+		rules.PortSetTextLossless(p, r, "C09-str-lossless")
 		rules.CLIFileWriter(p, r, "C09-file")
 		r.Floor("C09-nodrop", 1)
 	})
